@@ -343,6 +343,8 @@ impl Runner<'_, '_> {
                 if let Some(b) = self.known.base[*ci] {
                     let lim = self.known.chain[*ci].len() + 2;
                     self.walk_from(*ci, b, lim).await;
+                } else {
+                    self.out.line(&format!("nowalk {} => empty", self.known.clients[*ci]));
                 }
             }
             AOp::SnapWalk { ci } => {
